@@ -26,6 +26,9 @@ pub fn index_edges(
     let ths = cfg.get_target_path_set();
     let index = core::Index::new(&cfg, &ths, work_path).map_err(|e| e.to_string())?;
     let tmp = work_path.join(".verif-render.dot");
+    // An earlier, longer render is already there: what `target render` writes
+    // must replace it, not be laid over it.
+    let _ = std::fs::write(&tmp, "0 -> 0;\n".repeat(2048));
     index.dag.render_dotfile(&tmp).map_err(|e| e.to_string())?;
     let dot = std::fs::read_to_string(&tmp).map_err(|e| e.to_string())?;
     let _ = std::fs::remove_file(&tmp);
